@@ -1632,10 +1632,10 @@ func runC16(c *Ctx) {
 	x.corpus()
 	x.fixedF()
 
-	nsig, per := 220, 16
+	nsig, per := 160, 16
 	nflt := 20000
 	if c.Thorough {
-		nsig, per, nflt = 6000, 24, 400000
+		nsig, per, nflt = 4500, 24, 400000
 	}
 	x.floats(nflt)
 	for i := 0; i < nsig; i++ {
